@@ -200,3 +200,38 @@ func H_C14_sequence() {
 	vAssert(k == "in" && v == "(a/'b,"+q+"'/d)", "C14 sequence: parsed from the first result")
 	vReach("end")
 }
+
+// a single rule whose bare value contains apostrophes (it's, O'Brien, '), with and without a message: one
+// rule in, one rule out, value and message recovered
+func H_C14_rt_apostrophe() {
+	key := []string{VPrefix, VSuffix, VEq, VTo}[vndChoice("key", 4)]
+	val := vndString("val", 3)
+	vAssume(len(val) > 0)
+	vAssume(vNot(vNoByte(val, '\'')))
+	vAssume(vNoByte(val, ','))
+	vAssume(vNoByte(val, '|'))
+	vAssume(vNoByte(val, '='))
+	msg := vndString("msg", 2)
+	vAssume(vValidUTF8(msg))
+	vAssume(vNoByte(msg, ','))
+	vAssume(vNoByte(msg, '\''))
+	vAssume(vNoByte(msg, '|'))
+	text := GenValidKV(key, val) // an empty message means: none given
+	if msg != "" {
+		text = GenValidKV(key, val, msg)
+	}
+	parts := ValidNamesSplit(NewRule().Set("F", text).Get("F"))
+	vAssert(len(parts) == 1, "C14 apostrophe: one rule in, one rule out")
+	if len(parts) != 1 {
+		return
+	}
+	k, v, m := ParseValidNameKV(parts[0])
+	vAssert(k == key, "C14 apostrophe: key recovered")
+	vAssert(v == val, "C14 apostrophe: value recovered")
+	if msg == "" {
+		vAssert(m == "", "C14 apostrophe: no message")
+	} else {
+		vAssert(m == vC14Label(msg), "C14 apostrophe: message recovered with its label")
+	}
+	vReach("end")
+}
